@@ -283,8 +283,20 @@ struct StreamSim : Sim {
                 }
         }
 
-        Plan generate(uint64_t seed, const std::string &focus, bool thorough, uint64_t run_index) override
+        Plan generate(uint64_t seed, const std::string &focus_in, bool thorough_in, uint64_t run_index_in) override
         {
+                // focus "HUGE" (sim streamhuge: the quota of huge cases used by the cross-cutting monitors): rotate over the huge cases of
+                // C05 (10), C10 (5), C09 (6) and C07 (8) by run index
+                std::string focus = focus_in;
+                bool thorough = thorough_in;
+                uint64_t run_index = run_index_in;
+                if (focus_in == "HUGE") {
+                        static const char *hf[4] = { "C05", "C10", "C09", "C07" };
+                        static const uint64_t hq[4] = { 10, 5, 6, 8 };
+                        focus = hf[run_index_in % 4];
+                        run_index = (run_index_in / 4 + mix64(seed, 0x40e) % 64) % hq[run_index_in % 4];
+                        thorough = false;
+                }
                 Rng g(seed, "plan");
                 Plan p;
                 int nc = 1 + (int) g.below(4);
@@ -1540,3 +1552,10 @@ std::vector<uint8_t> StreamSim::ref_mh_periodic(bool sha256, size_t phase, uint6
 } // namespace
 
 Sim *make_stream_sim() { return new StreamSim(); }
+namespace {
+struct StreamHugeSim : StreamSim {
+        const char *name() const override { return "streamhuge"; }
+        Plan generate(uint64_t seed, const std::string &, bool thorough, uint64_t idx) override { return StreamSim::generate(seed, "HUGE", thorough, idx); }
+};
+} // namespace
+Sim *make_streamhuge_sim() { return new StreamHugeSim(); }
